@@ -9,6 +9,7 @@ import (
 	"fmt"
 	"os"
 	"sort"
+	"strings"
 	"verif/ref/refec"
 
 	"github.com/piotrnar/gocoin/lib/btc"
@@ -23,6 +24,7 @@ type Node struct {
 	Dir  string
 	P    refchain.Params
 	Opts NodeOpts
+	hf   *headerFirst // state of the client-style delivery (NodeOpts.HeaderFirst)
 }
 
 // PurgeUnspendable mirrors utxo.UTXO_PURGE_UNSPENDABLE (what a freshly configured client runs with: its default
@@ -94,6 +96,11 @@ type NodeOpts struct {
 	DoNotRescan  bool
 	BDB          *chain.BlockDBOpts
 	Callbacks    *chain.NewChanOpts // optional: BlockMinedCB etc. (copied)
+	// HeaderFirst: blocks reach the chain the way the client hands them over (client/network/hdrs.go ProcessNewHeader,
+	// client/network/data.go netBlockReceived, client/main.go HandleNetBlock / LocalAcceptBlock) instead of through
+	// CheckBlock + AcceptBlock: the header enters the block tree first, the body is checked on that same btc.Block object
+	// (a corrupt copy is discarded and the object waits for the next copy), then CommitBlock.
+	HeaderFirst bool
 }
 
 // ApplyParams puts the regtest-like consensus numbers into the public Consensus fields.
@@ -170,6 +177,9 @@ func (n *Node) Deliver(raw []byte) (res DeliverResult) {
 			res = DeliverResult{Stage: "panic", Err: fmt.Sprint(r)}
 		}
 	}()
+	if n.Opts.HeaderFirst {
+		return n.deliverHeaderFirst(raw)
+	}
 	bl, er := btc.NewBlock(raw)
 	if er != nil {
 		return DeliverResult{Stage: "decode", Err: er.Error()}
@@ -247,4 +257,124 @@ func diffUTXO(got, want refchain.UTXO, purge bool) string {
 		diffs = diffs[:6]
 	}
 	return fmt.Sprintf("%d differences: %v", n, diffs)
+}
+
+// ---------------------------------------------------------------------------------------------
+// client-style delivery
+
+type blockToGet struct { // network.OneBlockToGet
+	bl   *btc.Block
+	node *chain.BlockTreeNode
+}
+
+type headerFirst struct {
+	toGet     map[[32]byte]*blockToGet // network.BlocksToGet
+	received  map[[32]byte]bool        // network.ReceivedBlocks
+	discarded map[[32]byte]bool        // network.DiscardedBlocks
+	lastHdr   uint32                   // network.LastCommitedHeader.Height
+}
+
+func (n *Node) deliverHeaderFirst(raw []byte) DeliverResult {
+	if n.hf == nil {
+		n.hf = &headerFirst{toGet: map[[32]byte]*blockToGet{}, received: map[[32]byte]bool{}, discarded: map[[32]byte]bool{}}
+	}
+	hf := n.hf
+	if len(raw) < 100 {
+		return DeliverResult{Stage: "decode", Err: "ShortBlock"}
+	}
+	var hash [32]byte
+	copy(hash[:], btc.NewSha2Hash(raw[:80]).Hash[:])
+	if hf.received[hash] {
+		return DeliverResult{Stage: "check", Err: "already received"}
+	}
+	b2g := hf.toGet[hash]
+	if b2g == nil {
+		// ProcessNewHeader
+		bl, er := btc.NewBlock(append([]byte(nil), raw[:80]...))
+		if er != nil {
+			return DeliverResult{Stage: "decode", Err: er.Error()}
+		}
+		if hf.discarded[hash] {
+			return DeliverResult{Stage: "check", Err: "header of an already rejected block"}
+		}
+		n.Ch.BlockIndexAccess.Lock()
+		_, later, er := n.Ch.PreCheckBlock(bl)
+		if er != nil {
+			n.Ch.BlockIndexAccess.Unlock()
+			return DeliverResult{Stage: "check", Err: er.Error(), MaybeLater: later}
+		}
+		node := n.Ch.AcceptHeader(bl)
+		n.Ch.BlockIndexAccess.Unlock()
+		b2g = &blockToGet{bl: bl, node: node}
+		hf.toGet[hash] = b2g
+		if node.Height > hf.lastHdr {
+			hf.lastHdr = node.Height
+		}
+	}
+	// netBlockReceived
+	forget := func() { // discard what was extracted from this copy; the object waits for another one
+		b2g.bl.BlockWeight, b2g.bl.TotalInputs = 0, 0
+		b2g.bl.TxCount, b2g.bl.TxOffset = 0, 0
+		b2g.bl.Txs = nil
+	}
+	prev := b2g.bl.Raw
+	b2g.bl.Raw = raw
+	if er := n.Ch.PostCheckBlock(b2g.bl); er != nil {
+		if b2g.bl.MerkleRootMatch() && !strings.Contains(er.Error(), "RPC_Result:bad-witness-nonce-size") {
+			// "wrongly mined one - give it up"
+			delete(hf.toGet, hash)
+			n.Ch.DeleteBranch(b2g.node, func(h *btc.Uint256) {
+				var x [32]byte
+				copy(x[:], h.Hash[:])
+				delete(hf.toGet, x)
+			})
+		} else {
+			b2g.bl.Raw = prev
+			forget()
+		}
+		return DeliverResult{Stage: "check", Err: er.Error()}
+	}
+	// HandleNetBlock
+	if b2g.node.Parent != nil {
+		var ph [32]byte
+		copy(ph[:], b2g.node.Parent.BlockHash.Hash[:])
+		if hf.discarded[ph] {
+			hf.discarded[hash] = true
+			delete(hf.toGet, hash)
+			return DeliverResult{Stage: "accept", Err: "parent discarded"}
+		}
+	}
+	if !n.Ch.HasAllParents(b2g.node) {
+		// The client would keep the block in its cache until the parent's data arrives. The reference keeps no orphans
+		// (a block is delivered again once its parent is there), so the harness hands the body back instead: the
+		// object stays in BlocksToGet as if this copy had never arrived.
+		b2g.bl.Raw = prev
+		forget()
+		return DeliverResult{Stage: "check", Err: "parent has no data yet", MaybeLater: true}
+	}
+	hf.received[hash] = true
+	delete(hf.toGet, hash)
+	// LocalAcceptBlock
+	bl := b2g.bl
+	n.Ch.Unspent.AbortWriting()
+	n.Ch.Blocks.BlockAdd(b2g.node.Height, bl)
+	bl.LastKnownHeight = hf.lastHdr
+	if er := n.Ch.CommitBlock(bl, b2g.node); er != nil {
+		var disc func(x *chain.BlockTreeNode)
+		disc = func(x *chain.BlockTreeNode) { // network.DiscardBlock
+			for _, c := range x.Childs {
+				disc(c)
+			}
+			var h [32]byte
+			copy(h[:], x.BlockHash.Hash[:])
+			hf.discarded[h] = true
+			delete(hf.received, h)
+		}
+		disc(b2g.node)
+		if l := n.Ch.LastBlock().Height; hf.lastHdr < l {
+			hf.lastHdr = l
+		}
+		return DeliverResult{Stage: "accept", Err: er.Error()}
+	}
+	return DeliverResult{Stage: "ok"}
 }
